@@ -564,6 +564,9 @@ func c12One(o *out, text string, sch c12Schema, tag string) {
 			}
 		}
 	}
+	// over a subquery: a whole wildcard stands for the subquery's output columns (as ColumnNames lists them) and its
+	// dimensions, without the tags the statement groups by
+	c12OverSubquery(o, q, res, rerr, text, string(sj), rp)
 	// the property, directly: the result is the independent expansion
 	if !c12StandardTypes(sch) {
 		return
@@ -766,4 +769,112 @@ func init() {
 		must(json.Unmarshal([]byte(rpStr(rp, "schema")), &sch))
 		c12One(o, rpStr(rp, "text"), sch, "replay")
 	}
+}
+
+func c12OverSubquery(o *out, q, res *influxql.SelectStatement, rerr error, text, sj string, rp map[string]interface{}) {
+	if rerr != nil || len(q.Sources) != 1 || len(q.Fields) != 1 || res == nil || len(res.Sources) != 1 {
+		return
+	}
+	if w, ok := q.Fields[0].Expr.(*influxql.Wildcard); !ok || w.Type != 0 && w.Type != influxql.MUL {
+		return
+	}
+	sq, ok := res.Sources[0].(*influxql.SubQuery)
+	if !ok {
+		return
+	}
+	grouped := map[string]bool{}
+	for _, d := range q.Dimensions {
+		switch e := d.Expr.(type) {
+		case *influxql.VarRef:
+			grouped[e.Val] = true
+		case *influxql.Call:
+		default:
+			return // a GROUP BY wildcard
+		}
+	}
+	inner := sq.Statement
+	var cols []string
+	pn := safely(func() { cols = inner.ColumnNames() })
+	if pn != nil || len(cols) == 0 {
+		return
+	}
+	cols = cols[1:]
+	// the subquery's own names: skip the statements whose column names were disambiguated with suffixes
+	byName := map[string]bool{}
+	for _, f := range inner.Fields {
+		if byName[f.Name()] {
+			return
+		}
+		byName[f.Name()] = true
+	}
+	for _, c := range cols {
+		if c == "time" {
+			return
+		}
+	}
+	tagCol := map[string]bool{}
+	for _, f := range inner.Fields {
+		if v, ok := f.Expr.(*influxql.VarRef); ok && v.Type == influxql.Tag {
+			tagCol[f.Name()] = true
+		}
+	}
+	extra := map[string]bool{} // the tag arguments of top() and bottom(): columns of their own
+	for _, c := range cols {
+		if !byName[c] {
+			extra[c] = true
+			tagCol[c] = true
+		}
+	}
+	want := map[string]bool{}
+	nFields := 0
+	for _, c := range cols {
+		if tagCol[c] && grouped[c] {
+			continue
+		}
+		want[c] = true
+		nFields++
+	}
+	if nFields > 0 {
+		for _, d := range inner.Dimensions {
+			if v, ok := d.Expr.(*influxql.VarRef); ok && !grouped[v.Val] {
+				want[v.Val] = true
+			}
+		}
+	}
+	got := map[string]bool{}
+	for _, f := range res.Fields {
+		v, ok := f.Expr.(*influxql.VarRef)
+		if !ok {
+			return
+		}
+		got[v.Val] = true
+	}
+	o.checked()
+	var missing, surplus []string
+	for k := range want {
+		if !got[k] {
+			missing = append(missing, k)
+		}
+	}
+	for k := range got {
+		if !want[k] {
+			surplus = append(surplus, k)
+		}
+	}
+	if len(missing) == 0 && len(surplus) == 0 {
+		return
+	}
+	sort.Strings(missing)
+	sort.Strings(surplus)
+	class := ""
+	if len(surplus) == 0 {
+		class = "C12-subquery-top-tags"
+		for _, k := range missing {
+			if !extra[k] {
+				class = ""
+			}
+		}
+	}
+	o.fail(class, fmt.Sprintf("RewriteFields on %q over %s: the wildcard over the subquery %s stands for %s; the subquery's output columns %q and dimensions are missing %q, not among them %q",
+		text, sj, inner.String(), res.Fields.String(), cols, missing, surplus), rp)
 }
